@@ -465,8 +465,33 @@ fn build_err_res(e: &arroy::Error, polls: usize) -> String {
     }
 }
 
-fn other(text: &str) -> arroy::Error {
-    arroy::Error::Io(std::io::Error::other(text.to_string()))
+/// The error of an op: arroy's, or the harness' own refusal (`res err other <text>`).
+pub enum OpErr {
+    Arroy(arroy::Error),
+    Other(&'static str),
+}
+
+impl From<arroy::Error> for OpErr {
+    fn from(e: arroy::Error) -> OpErr {
+        OpErr::Arroy(e)
+    }
+}
+
+impl From<heed::Error> for OpErr {
+    fn from(e: heed::Error) -> OpErr {
+        OpErr::Arroy(e.into())
+    }
+}
+
+fn other(text: &'static str) -> OpErr {
+    OpErr::Other(text)
+}
+
+fn op_err_res(e: &OpErr) -> String {
+    match e {
+        OpErr::Arroy(e) => err_res(e),
+        OpErr::Other(text) => format!("err other {text}"),
+    }
 }
 
 // ---------------------------------------------------------------------------------------
@@ -478,7 +503,7 @@ pub struct CaseEnv {
     pub env: heed::Env,
     pub db: arroy::Database<Euclidean>,
     pub mapsize: usize,
-    pub dir: tempfile::TempDir,
+    _dir: tempfile::TempDir,
 }
 
 impl CaseEnv {
@@ -494,7 +519,7 @@ impl CaseEnv {
         let db: arroy::Database<Euclidean> =
             env.create_database(&mut wtxn, None).map_err(|e| format!("create_database: {e}"))?;
         wtxn.commit().map_err(|e| format!("commit: {e}"))?;
-        Ok(CaseEnv { env, db, mapsize, dir })
+        Ok(CaseEnv { env, db, mapsize, _dir: dir })
     }
 }
 
@@ -522,7 +547,7 @@ pub struct Executor<'a, 'w> {
     pub last_polls: usize,
 }
 
-type OpResult = arroy::Result<String>;
+type OpResult = Result<String, OpErr>;
 
 impl<'a, 'w> Executor<'a, 'w> {
     pub fn new(case: &'a CaseEnv, out: &'w mut dyn Write) -> Executor<'a, 'w> {
@@ -559,7 +584,7 @@ impl<'a, 'w> Executor<'a, 'w> {
         self.case.db.remap_data_type::<NodeCodec<D>>()
     }
 
-    fn with_rtxn<R>(&self, f: impl FnOnce(&RoTxn) -> arroy::Result<R>) -> arroy::Result<R> {
+    fn with_rtxn<R>(&self, f: impl FnOnce(&RoTxn) -> Result<R, OpErr>) -> Result<R, OpErr> {
         match &self.wtxn {
             Some(wtxn) => {
                 let rtxn: &RoTxn<heed::WithoutTls> = wtxn;
@@ -572,7 +597,7 @@ impl<'a, 'w> Executor<'a, 'w> {
         }
     }
 
-    fn wtxn(&mut self) -> arroy::Result<&mut RwTxn<'a>> {
+    fn wtxn(&mut self) -> Result<&mut RwTxn<'a>, OpErr> {
         self.wtxn.as_mut().ok_or_else(|| other("notxn"))
     }
 
@@ -610,7 +635,7 @@ impl<'a, 'w> Executor<'a, 'w> {
                 return match r {
                     Ok(Ok(())) => Outcome::Ok,
                     Ok(Err(e)) => {
-                        let text = format!("res {}", err_res(&e));
+                        let text = format!("res {}", op_err_res(&e));
                         self.last_res = text[4..].to_string();
                         self.raw_line(&text);
                         Outcome::Err
@@ -628,7 +653,7 @@ impl<'a, 'w> Executor<'a, 'w> {
                         Outcome::Ok
                     }
                     Ok(Err(e)) => {
-                        let text = format!("note dump failed: {}", one_line(&e.to_string()));
+                        let text = format!("note dump failed: {}", op_err_res(&e));
                         self.raw_line(&text);
                         self.raw_line("enddump");
                         Outcome::Err
@@ -667,7 +692,7 @@ impl<'a, 'w> Executor<'a, 'w> {
                         Outcome::Ok
                     }
                     Err(Ok(e)) => {
-                        let text = err_res(&e);
+                        let text = op_err_res(&e);
                         self.finish_res(&text);
                         Outcome::Err
                     }
@@ -700,7 +725,7 @@ impl<'a, 'w> Executor<'a, 'w> {
         Outcome::Panic
     }
 
-    fn txn_op(&mut self, op: &Op) -> arroy::Result<()> {
+    fn txn_op(&mut self, op: &Op) -> Result<(), OpErr> {
         match op {
             Op::Begin => {
                 if self.wtxn.is_some() {
@@ -721,7 +746,7 @@ impl<'a, 'w> Executor<'a, 'w> {
         Ok(())
     }
 
-    fn dump(&mut self) -> arroy::Result<()> {
+    fn dump(&mut self) -> Result<(), OpErr> {
         let db = self.case.db.remap_types::<Bytes, Bytes>();
         let mut buf = String::with_capacity(1 << 16);
         self.with_rtxn(|rtxn| {
@@ -854,16 +879,16 @@ impl<'a, 'w> Executor<'a, 'w> {
                 Ok("ok".into())
             }
             Op::NeedBuild(_) => {
-                let b = self.with_rtxn(|rtxn| writer.need_build(rtxn))?;
+                let b = self.with_rtxn(|rtxn| Ok(writer.need_build(rtxn)?))?;
                 Ok(format!("ok {}", b as u8))
             }
             Op::Get(_, id) => self.with_rtxn(|rtxn| Ok(fmt_get(writer.item_vector(rtxn, *id)?))),
             Op::Contains(_, id) => {
-                let b = self.with_rtxn(|rtxn| writer.contains_item(rtxn, *id))?;
+                let b = self.with_rtxn(|rtxn| Ok(writer.contains_item(rtxn, *id)?))?;
                 Ok(format!("ok {}", b as u8))
             }
             Op::IsEmpty(_) => {
-                let b = self.with_rtxn(|rtxn| writer.is_empty(rtxn))?;
+                let b = self.with_rtxn(|rtxn| Ok(writer.is_empty(rtxn)?))?;
                 Ok(format!("ok {}", b as u8))
             }
             Op::Iter(_) => self.with_rtxn(|rtxn| {
@@ -961,7 +986,7 @@ impl<'a, 'w> Executor<'a, 'w> {
         &mut self,
         w: &W,
         o: &BuildOpts,
-    ) -> (Result<String, Result<arroy::Error, BuildFailure>>, Vec<Event>, bool) {
+    ) -> (Result<String, Result<OpErr, BuildFailure>>, Vec<Event>, bool) {
         let db = self.db::<D>();
         let poll_limit = self.poll_limit;
         let wtxn = match self.wtxn.as_mut() {
